@@ -85,7 +85,7 @@ def emit(lines):
 def run(ctx):
     ctx.cov["rule"] = ("(rounding) (source unit, target unit, rep) over length/angle/time families with integer, reciprocal, rational and irrational (deg/rad/rev/arcmin) ratios, grid + "
                        "Hypothesis-drawn: floor_/ceil_/round_{in,as} and explicit-rep forms vs the exact value e = x*ratio in long double: r integral, floor<=e+d, e-d<floor+1, "
-                       "ceil analogous, |round-e|<=1/2+d with d = 4 ulp of the rounding rep; integral values exhaustively in +-2^16, doubles as half-integers/integers +-k ulp in the "
+                       "ceil analogous, |round-e|<=1/2+d with d = 4 ulp of the rounding rep; explicit OutputRep forms (int64/int32; float/double/long double below 2^24) equal the implicit form; integral values exhaustively in +-2^16, doubles as half-integers/integers +-k ulp in the "
                        "TARGET unit plus random; (inversion) every (time-like, frequency-like) prefix pair with integer K>=10^6 representable in the rep: inverse_in/as == trunc(K/x), "
                        "n in 1..1000 exhaustively incl. the round trip inverse(inverse(n)) == n, random larger n, 4 ulp for floating reps; integral inversions with K<10^6 must not "
                        "compile (negative probes with floating twins); (trig) sin/cos/tan of deg/rad/rev/arcmin/mrad quantities vs long double std:: of the exact radians with "
